@@ -3,7 +3,10 @@ use crate::streaming::session::Session;
 use crate::streaming::streams::stream::Stream;
 use crate::streaming::systems::system::System;
 use crate::streaming::systems::COMPONENT;
+#[cfg(not(kani))]
 use ahash::{AHashMap, AHashSet};
+#[cfg(kani)]
+use iggy::verif_model::map::{AHashMap, AHashSet};
 use error_set::ErrContext;
 use futures::future::try_join_all;
 use iggy::error::IggyError;
@@ -11,8 +14,14 @@ use iggy::identifier::{IdKind, Identifier};
 use iggy::locking::IggySharedMutFn;
 use std::cell::RefCell;
 use std::sync::atomic::{AtomicU32, Ordering};
+#[cfg(not(kani))]
 use tokio::fs;
+#[cfg(kani)]
+use iggy::verif_model::shim::fs;
+#[cfg(not(kani))]
 use tokio::fs::read_dir;
+#[cfg(kani)]
+use iggy::verif_model::fs::read_dir;
 use tracing::{error, info, warn};
 
 static CURRENT_STREAM_ID: AtomicU32 = AtomicU32::new(1);
